@@ -69,6 +69,10 @@ def workloads(tier):
     # names related through chains of renames across patches (they must all end up on one worker)
     add('rename chain util->helpers->support, core->helpers', [[(tq.t_mod, 'f')], [(tq.t_rename, 'd/g', 'n', True)], [(tq.t_rename, 'n', 'd/n', True)], [(tq.t_rename, 'f', 'n', True)]], both)
     add('rename chain joining two groups late', [[(tq.t_rename, 'd/g', 'n', False)], [(tq.t_rename, 'd/h', 'd/n', True)], [(tq.t_rename, 'n', 'x/y/n', True)], [(tq.t_rename, 'd/n', 'n', True)], [(tq.t_mod, 'n', 1, 0, 1)]])
+    # names related without a rename: .orig-style headers, a name removed by one patch and used as old name by a later one
+    add('orig-style names between patches on one file', [[(tq.t_mod, 'f'), (tq.t_mod, 'd/g')], [(tq.t_orig, 'f')], [(tq.t_mod, 'f', 1, 0, 0), (tq.t_mod, 'd/h')]], both)
+    add('old name removed earlier', [[(tq.t_delete, 'f', False), (tq.t_mod, 'd/g')], [(tq.t_viaold, 'f', 'd/h')], [(tq.t_mod, 'd/h', 1, 0, 0)]])
+    add('modify, rename, modify renamed', [[(tq.t_mod, 'f'), (tq.t_mod, 'd/g')], [(tq.t_rename, 'f', 'n', True)], [(tq.t_mod, 'n', 1, 0, 4), (tq.t_mod, 'd/g', 1, 0, 0)]])
     # all-success with backups (save order between workers)
     add('success, three workers', [[(tq.t_mod, 'f'), (tq.t_mod, 'd/g')], [(tq.t_mod, 'd/h'), (tq.t_mode, 'f', True)]], ({'backup': 'always'},))
     return m0, W
